@@ -6,6 +6,7 @@ CONSTANTS
   KF_FindUnitRelock = FALSE
   MaxOps = 4
   ExportOps = 3
+  VerifierRemembersTokens = FALSE
   RedactNeedsTLSRecord = FALSE
   KeyFamily = "cover"
   DumpFile = "c19.ndjson"
